@@ -9,12 +9,14 @@ CHECKS = {
         "technique": "bounded-exhaustive enumeration of (object, dimension, point, direction / ordered point pair) lattices; "
                      "two-step central differences with kink recognition, the (strong) convexity inequality and the arg-max / "
                      "sign decision rules coded in the harness as independent oracles",
-        "level_text": "every registered benchmark prototype at every listed dimension, every loss at 1/2/3/13 outputs with every "
-                      "listed target pattern and prediction, 11 constraint kinds with 2-3 coefficient instances and the "
-                      "linear / gboost / surrogate objectives on tiny datasets are evaluated at every point of a fixed lattice "
-                      "(7 patterns x radii 1e-3..10 x sign), along every fixed direction, and for every ordered pair of lattice "
-                      "points; this is a complete enumeration of the stated lattice, not a proof for other points, dimensions "
-                      "or coefficients",
+        "level_text": "every registered benchmark prototype (48) at dims {1,2,3,4,8} (thorough {1..8,12,16,24,32}) and 2-3 summand "
+                      "counts, every loss (17, pinball at 3 alphas) at 1/2/3/13 (thorough +4) outputs with every listed target "
+                      "pattern and every prediction over {-30,-1,-1e-3,1e-3,1,30}^k (thorough 10 values per output), 11 "
+                      "constraint kinds with 2-3 coefficient instances at 4-6 dims and the linear / gboost / surrogate objectives "
+                      "on tiny datasets are evaluated at every point of a fixed lattice (zero + 6 patterns x radii "
+                      "{1e-3,0.1,1,10} x sign; thorough 8 patterns x 7-10 radii), along every fixed direction, and for every "
+                      "ordered pair of lattice points; this is a complete enumeration of the stated lattice, not a proof for "
+                      "other points, dimensions or coefficients",
         "level_note": "trusted: IEEE double arithmetic of g++ 12 / Eigen, the noise model of the finite-difference tolerance "
                       "(1e-13*(3 max|f|+|g|max(1,|x|)+n)/h), the lattice as representative of the quantifier domain; the "
                       "adversarial hill-climbing of the quantifier text is replaced by the lattice extremes (radius 10, 32 dims)",
